@@ -47,8 +47,38 @@ var solverSem = make(chan struct{}, 16)
 
 // RunScript races the solvers on one script; returns the first decisive (sat/unsat) result,
 // or the collection's best non-decisive result. If all is true, waits for all solvers.
+var gcOnce sync.Once
+
+// gcScripts removes SMT scripts left behind by processes that no longer exist (killed runs).
+func gcScripts() {
+	ents, err := os.ReadDir(workDir)
+	if err != nil {
+		return
+	}
+	re := regexp.MustCompile(`-(\d+)\.[a-z0-9-]+\.smt2$`)
+	alive := map[string]bool{}
+	for _, e := range ents {
+		m := re.FindStringSubmatch(e.Name())
+		if m == nil {
+			continue
+		}
+		ok, seen := alive[m[1]]
+		if !seen {
+			_, err := os.Stat("/proc/" + m[1])
+			ok = err == nil
+			alive[m[1]] = ok
+		}
+		if !ok {
+			os.Remove(filepath.Join(workDir, e.Name()))
+		}
+	}
+}
+
 func RunScript(name string, sc *Script, timeoutS int, all bool) (best SolverResult, allRes []SolverResult) {
 	os.MkdirAll(workDir, 0o755)
+	if !keepSMT {
+		gcOnce.Do(gcScripts)
+	}
 	h := sha256.Sum256([]byte(sc.Text))
 	base := filepath.Join(workDir, fmt.Sprintf("%s-%s-%d", sanitize(name), hex.EncodeToString(h[:6]), os.Getpid()))
 	ctx, cancel := context.WithCancel(context.Background())
